@@ -3,6 +3,7 @@ package sim
 import (
 	"encoding/json"
 	"fmt"
+	"regexp"
 	"sort"
 	"strconv"
 	"strings"
@@ -102,11 +103,13 @@ func (g *pkgGen) T(d int) *Node {
 		}
 		return g.ref()
 	}
-	w := []int{4, 8, 10, 3, 3, 4, 3, 4, 5, 4, 4, 3, 7, 3, 4, 3, 3, 3, 3, 2}
+	w := []int{4, 8, 10, 3, 3, 4, 3, 4, 5, 4, 4, 3, 7, 3, 4, 3, 3, 3, 3, 2, 3}
 	if g.noDef > 0 {
 		w[11], w[13] = 0, 0
 	}
 	switch g.r.Pick(w) {
+	case 20:
+		return g.shadow()
 	case 18:
 		// a function whose formal is an ordinary name or one of the constants
 		v := g.name()
@@ -120,6 +123,13 @@ func (g *pkgGen) T(d int) *Node {
 		return Call("funcall", L(A("lambda"), L(A(v)), Call("list", A(v), body)), arg)
 	case 19:
 		// definitions made while the language package itself is current
+		if g.r.Chance(1, 3) {
+			// the language package gains an export: packages created later
+			// start with it, packages that already exist keep what they have
+			n := g.name()
+			return Call("progn", Call("in-package", QS("lisp")), Call("set", QS(n), g.val()), Call("export", QS(n)),
+				Call("in-package", QS(PickStr(g.r, pkgNames))))
+		}
 		return Call("progn", Call("in-package", QS("lisp")), PickNode(g.r,
 			Call("set", QS(g.name()), g.val()),
 			L(A("defun"), A(PickStr(g.r, funNames)), L(), Call("list", g.val(), Call("sim:cur-pkg"), Call("ignore-errors", A(g.name()))))),
@@ -214,6 +224,30 @@ func (g *pkgGen) T(d int) *Node {
 		return Call("list", Call("sim:cur-pkg"), g.T(d-1))
 	}
 }
+
+// shadow is a lexical binding that carries the name of a special operator,
+// macro, builtin or package-level function and is used in operator position:
+// the unqualified head resolves lexically first, so the local function runs.
+// The whole construct is one atom (the model reads the expected value out of
+// its text; the shrinker cannot take it apart).
+func (g *pkgGen) shadow() *Node {
+	g.valN++
+	v := 1000 + g.valN
+	op := PickStr(g.r, []string{"if", "progn", "or", "and", "cond", "assert", "let", "let*", "quote", "set", "lambda", "handler-bind", "ignore-errors",
+		"dotimes", "defun", "list", "car", "concat", "map", "f0", "f1", "m0", "in-package", "use-package", "export", "thread-first", "funcall"})
+	switch g.r.Intn(4) {
+	case 0:
+		return A(fmt.Sprintf("(flet ((%s (&rest zs) %d)) (%s 1 2))", op, v, op))
+	case 1:
+		return A(fmt.Sprintf("(let ((%s (lambda (&rest zs) %d))) (%s 1 2))", op, v, op))
+	case 2:
+		return A(fmt.Sprintf("(labels ((%s (&rest zs) %d)) (%s 1 2))", op, v, op))
+	default:
+		return A(fmt.Sprintf("((lambda (%s) (%s 1 2)) (lambda (&rest zs) %d))", op, op, v))
+	}
+}
+
+var shadowRe = regexp.MustCompile(`\(&rest zs\) (\d+)\)`)
 
 func (g *pkgGen) probe(n *Node) *Node {
 	g.prN++
@@ -454,6 +488,14 @@ func (m *pmodel) eval(n *Node, lex *penv) (pval, *perr) {
 			s, _ := strconv.Unquote(n.Atom)
 			return pval{k: pStr, s: s}, nil
 		}
+		if strings.HasPrefix(n.Atom, "(") {
+			// a shadow construct: the lexically bound function is the one called
+			if sm := shadowRe.FindStringSubmatch(n.Atom); sm != nil {
+				i, _ := strconv.Atoi(sm[1])
+				return pval{k: pInt, i: i}, nil
+			}
+			return pval{}, merr()
+		}
 		return m.lookup(n.Atom, lex)
 	}
 	if len(n.List) == 0 {
@@ -575,6 +617,16 @@ func (m *pmodel) eval(n *Node, lex *penv) (pval, *perr) {
 		if _, ok := m.pkgs[name]; !ok {
 			m.pkgs[name] = &ppkg{syms: map[string]pval{}}
 			m.stats["reach_package_created"]++
+			// a new package starts with the language package's exports as
+			// they are now (a failing import is not reported by in-package)
+			for _, x := range m.pkgs["lisp"].exports {
+				v, ok := m.pkgs["lisp"].syms[x]
+				if !ok {
+					break
+				}
+				m.pkgs[name].syms[x] = v
+				m.stats["reach_new_package_got_language_export"]++
+			}
 		}
 		m.cur = name
 		return pval{}, nil
